@@ -641,7 +641,22 @@ pub fn generate(sink: &mut Sink, rng: &mut Rng, n: u64) {
         for (name, klen, ivlen) in &algs {
             for len in pt_lengths(rng) {
                 let key = rand_bytes(rng, *klen);
-                let iv = rand_bytes(rng, *ivlen);
+                // counter / nonce edge values: all ones, a low or high half of ones (a block counter that
+                // wraps inside the message), all zeros
+                let iv = match rng.below(10) {
+                    0 => vec![0xff; *ivlen],
+                    1 => (0..*ivlen).map(|i| if i >= *ivlen / 2 { 0xff } else { rng.below(256) as u8 }).collect(),
+                    2 => (0..*ivlen).map(|i| if i < *ivlen / 2 { 0xff } else { rng.below(256) as u8 }).collect(),
+                    3 => {
+                        let mut v = vec![0xff; *ivlen];
+                        if let Some(l) = v.last_mut() {
+                            *l = 0xfe;
+                        }
+                        v
+                    }
+                    4 => vec![0; *ivlen],
+                    _ => rand_bytes(rng, *ivlen),
+                };
                 let pt = if rng.chance(1, 8) { vec![*rng.pick(&[0u8, 0x80, 1, 16, 255]); len] } else { rand_bytes(rng, len) };
                 let spelled = if sweep == 0 { name.clone() } else { spell(rng, name) };
                 emit4(sink, "o.c23", spelled.as_bytes(), &key, &iv, &pt);
